@@ -151,6 +151,9 @@ func runC13(w *World, r *Report) {
 		}
 	}
 
+	shareRule(w, r, "C13.tool-panic-lands-on-its-own-task", "the recover handler of a tool-call goroutine writes the panic into the task it was started for (a parameter of the goroutine), never through the loop variable of the spawning loop: under go 1.18 semantics that variable is shared and has moved on — an index out of range inside the deferred function of an unrecovered goroutine kills the process", 6, "C17", "C17.parallel-protocol")
+	shareRule(w, r, "C13.tool-goroutines-capture-no-loop-variable", "no literal started as a goroutine in the tools node captures a loop variable", 1, "C17", "C17.loopvar")
+
 	r.Rule("C13.percent-w", "fmt.Errorf with an error operand on the run path uses %w", 30)
 	// armed: the framework's own propagation path between a node's return and the run's return, i.e.
 	// package compose functions reachable from the run entry points. Other packages are listed as info
